@@ -7,9 +7,11 @@ LEVEL_TEXT["C03"] = (
     "i-th element IS the scalar expression at i evaluated with the field operations of C (quotients under non-zero denominators), for all of "
     "+ - * /, unary minus, scalar on either side, the compound forms incl. a op= a, and |, mask and index-list selection as pure element moves. "
     "The cmplx_t formulas are regenerated from types.h each run and each proved to be the field operation (incl. real-on-the-left and compound forms). "
-    "Tie: bit-level correspondence of the executable model with the real overloads on random programs (every overload hit, coverage table in evidence) under ASan/UBSan. "
+    "Tie: bit-level correspondence (sign of zero included) of the executable model with the real overloads on random programs (every overload hit, coverage table in evidence; "
+    "intermediates reach the overloads as rvalues half of the time) and on 135 compiled C++ expression forms whose intermediates are genuine temporaries, under ASan/UBSan. "
     "Measured only: agreement with a complex<long double> interpreter within 4 eps*scale per operation; object-level facts of the C++ "
-    "(operands bit-identical after every call, nothing changed after a rejected call, copies own their storage) are harness checks, trivial in the pure model."
+    "(operands bit-identical after every call, nothing changed after a rejected call, copies own their storage, an operator result is a prvalue that owns its storage in every "
+    "consumption idiom and equals, bit for bit, the same computation done step by step through named arrays) are harness checks, trivial in the pure model."
 )
 
 PROPS["C03"] = {
@@ -17,21 +19,38 @@ PROPS["C03"] = {
     "lean_props": "DspVerif.Props.C03",
     "harness": [{"src": "c03.cpp", "cfg": "asan",
                  # same formulas in the same order => agreement is bit-exact today (only NaN sign bits differ); the tolerance only
-                 # leaves room for harmless re-association. zpad/concat/m* are pure element moves: exact.
+                 # leaves room for harmless re-association. zpad/concat/m* are pure element moves: exact. `form` (compiled expressions
+                 # with temporaries): exact. check.py compares float tokens numerically (-0 == +0 even at tolerance 0), therefore every
+                 # result of `prog` and `form` is followed by a sign-of-zero token `z:+-..` (one char per component) that is compared as a string.
                  "tol": {"prog": (1e-13, 0.0), "sc": (1e-13, 0.0)}}],
     "rule": "random expression programs (2..4 real/complex variables, 1..6 statements: expression / assignment / copy-construct / compound op= with array or scalar / |=, "
             "expression depth 1..6 over + - * / with array or real/int/cmplx_t/std::complex scalar on either side, unary +/-, |, mask and index-list selection), "
-            "14 (thorough 120) programs for EVERY base length 0..64 plus 158 (1516) programs with lengths log-uniform in 65..10^4, a quarter of them with magnitudes 1e-100..1e100, "
-            "values incl. +0, -0, +-1, small integers; ~4% of the statements carry a planted length/mask/index violation, ~8% are aliasing forms a op= a, a op= (a op a), a |= a; "
-            "every library call snapshots its operands; plus 2000 (5000) x 27 scalar cmplx_t operator cases, zeropad/concatenate/complex/real/imag/conj on every length 0..64; "
+            "14 (thorough 120) programs for EVERY base length 0..64 plus 158 (1516) programs with lengths log-uniform in 65..10^4 plus 2 (12) oracle-only programs on single frames of "
+            "65536..196700 elements, a quarter of them with magnitudes 1e-100..1e100, "
+            "values incl. +0, -0, +-1, small integers, exact powers of two, and (wide mode) the absolute scale classes 1e-300, 1e-17, 1e-8, 1e8, 1e17, 1e300, denormals, DBL_MAX; "
+            "~4% of the statements carry a planted length/mask/index violation, ~8% are aliasing forms a op= a, a op= (a op a), a |= a; "
+            "every library call snapshots its operands; owned intermediates (results of inner operators, literals) are passed on as RVALUES (std::move) with probability 1/2, so the "
+            "interpreter reaches an overload with the value categories a C++ expression has; copies also through std::vector<arr>(3, prototype) with the siblings written; "
+            "COMPILED FORMS: 135 C++ expressions whose intermediates are genuine temporaries (every binary operator with the temporary left / right / both, nested two and three deep, "
+            "scalar of each type on either side of a temporary, unary minus, | , mask / index-list / arr_int selection of temporaries, compound op= and |= with a temporary or aliasing "
+            "right operand, rejected forms), instantiated for the real/complex operand-kind combinations they use (905 instantiations), on correlated operands (a==b, a==b*c exactly, "
+            "a==-b, a==scalar, +-0 against +-0, real-valued complex) for lengths {0,1,2,3,4,5,8,13,16,33,64}, one random 6..64 and one 65..600 (thorough: every 0..64 three times + 6 up to 10^4); "
+            "each form is compared BIT FOR BIT (sign of zero; NaN=NaN) with the same tree evaluated step by step through named arrays, with the long double oracle and (CORR tag form) with the "
+            "Lean model, and is consumed by copy-initialisation, const auto& (twice, both alive), auto&&, range-for, by-const-reference argument, reference member of an aggregate and a "
+            "decltype(EXPR) return, with same-size arrays allocated, filled and pushed through library operators between binding and reading; a reference-typed operator expression is reported statically; "
+            "plus 2000 (5000) x 27 scalar cmplx_t operator cases, zeropad/concatenate/complex/real/imag/conj on every length 0..64; "
             "distinct = distinct protocol lines + oracle-only programs (each a different random program); non-trivial = all",
     "technique": "Lean 4 proof (structural induction over an expression language mirroring the overload set; ring homomorphism Cx R -> C for the regenerated cmplx_t formulas) "
-                 "+ bit-level model/implementation correspondence on random programs under ASan/UBSan + complex<long double> reference interpreter with a running 4*eps*scale error bound",
+                 "+ bit-level (incl. sign of zero) model/implementation correspondence on random programs and on compiled expression forms with temporaries under ASan/UBSan "
+                 "+ value-category / lifetime probes of operator results + complex<long double> reference interpreter with a running 4*eps*scale error bound",
     "level_note": "overload resolution (which scalar operator each operand combination reaches, int -> real_t, std::complex -> cmplx_t, promotion of the left scalar) is hand-modelled and "
                   "validated by the correspondence run only; std::vector storage is modelled by immutable lists, so 'operands unchanged', 'unchanged after a rejected call' and "
-                  "'copies are independent' are theorems about the model and snapshot checks on the implementation; floating-point rounding is not modelled (oracle measurement)",
+                  "'copies are independent' are theorems about the model and snapshot checks on the implementation; value categories and object lifetime do not exist in the model: "
+                  "'an operator result is an array of its own, the same for temporaries as for named operands' is a harness check only (compiled forms, ASan); "
+                  "unary plus returns a reference to its operand by design (array.h operator+()) and is not among the property's operators: it is exercised only nested inside larger "
+                  "expressions, never as the top-level operator of a lifetime probe; floating-point rounding is not modelled (oracle measurement)",
     "trusted_base": TB_COMMON + [
-        "Model/ArrayOps.lean mirrors the C++ overload resolution by hand (array.h templates are outside the translator's subset); the correspondence run hits all 145 overload/operand-kind labels",
+        "Model/ArrayOps.lean mirrors the C++ overload resolution by hand (array.h templates are outside the translator's subset); the correspondence run hits all 147 overload/operand-kind labels (incl. std::vector<arr>(n, proto) copies)",
         "the oracle's tolerance is a running bound: 4*eps*(|a|+|b|), 4*eps*|a||b|, 4*eps*|a|/|b| per + - / * / step propagated through the expression (long double reference); "
         "elements whose operands leave [1e-100, 1e100] (or divide by 0) are counted as outside the claimed range, not checked",
     ],
